@@ -13,6 +13,9 @@ using namespace coloquinte;
 #ifndef WMAX
 #define WMAX 3
 #endif
+#ifndef WSCALE
+#define WSCALE 1   // widths are multiples of WSCALE (wide cells: width x distance products beyond 2^31)
+#endif
 #ifndef NMAX
 #define NMAX 3
 #endif
@@ -27,7 +30,7 @@ extern "C" void harness() {
 #ifdef WSYM
     w[i] = __verif_nondet_int(1, WMAX);
 #else
-    w[i] = 1 + __verif_choice(WMAX);
+    w[i] = (1 + __verif_choice(WMAX)) * WSCALE;
 #endif
     t[i] = __verif_nondet_int(-2 * LIM, 2 * LIM);
     __verif_assume(r.remainingSpace() >= w[i]);
